@@ -24,7 +24,7 @@ def configs(backends, pools=True, announce=False, bounce=False):
             cfg['announce'] = True
         if bounce:
             cfg['bounce_factory'] = draw(st.sampled_from(['default', 'default', 'headersonly', 'none']))
-            cfg['bounce_queue'] = draw(st.sampled_from(['self', 'self', 'separate']))
+            cfg['bounce_queue'] = draw(st.sampled_from(['self', 'self', 'separate', 'separate-queue']))
         return cfg
     return st.composite(strat)()
 
